@@ -106,7 +106,15 @@ func c09Diff(a, b c09Snap) (created, touched, removed []string) {
 
 var c09Old = time.Date(2001, 2, 3, 4, 5, 6, 0, time.UTC)
 
-const c09DestRel = "r/sb/dest"
+// SAFETY: every case lives in a private os.MkdirTemp root, 11 directory levels above the
+// destination; no generated name has more than 6 ".." components and absolute hostile names
+// point inside that root, so that even on a tree WITHOUT the validation (or a mutated one)
+// every effect stays inside the root.  The whole root is snapshotted.
+const c09Fill = "l1/l2/l3/l4/l5/l6/l7/l8"
+const c09DestRel = c09Fill + "/r/sb/dest"
+
+// absolute hostile name, set to a path inside the private root
+var c09Abs = "/nonexistent-c09/abs-x"
 
 type c09Pre struct {
 	rel  string // relative to dest
@@ -130,7 +138,7 @@ func (c *ctx) c09Clean() string {
 	return p[c.rng.Intn(len(p))]
 }
 
-var c09Hostile = []string{"..", ".", "", "../evil", "../../evil", "a/../..", "a/../../evil", "/etc/x", "/", "a/b", "..\\x",
+var c09Hostile = []string{"..", ".", "", "../evil", "../../evil", "a/../..", "a/../../evil", "\x01ABS", "/", "a/b", "..\\x",
 	"x\x00y", "../outside/keep", "./a", "a/.", "a/", "/a", "//", "../dest/a", "..", "../..", "../../..", "a/../b"}
 
 func (c *ctx) c09HostileName() string {
@@ -147,7 +155,11 @@ func (c *ctx) c09HostileName() string {
 		}
 		return string(b)
 	}
-	return c09Hostile[c.rng.Intn(len(c09Hostile))]
+	h := c09Hostile[c.rng.Intn(len(c09Hostile))]
+	if h == "\x01ABS" {
+		return c09Abs
+	}
+	return h
 }
 
 // random pre-state below dest
@@ -318,11 +330,16 @@ func c09B(x bool) string {
 }
 
 func genNames(c *ctx) {
-	cwd, _ := os.Getwd()
-	work := filepath.Join(cwd, "names_sb")
-	os.MkdirAll(work, 0755)
+	work, err := os.MkdirTemp("", "c09names")
+	if err != nil {
+		panic(err)
+	}
 	defer os.RemoveAll(work)
-	chkU, chkC := c09Probe(work)
+	c09Abs = filepath.Join(work, "l1", "abs-x")
+	c09WorkHex = hex.EncodeToString([]byte(work))
+	os.MkdirAll(filepath.Join(work, c09Fill), 0755)
+	chkU, chkC := c09Probe(filepath.Join(work, c09Fill))
+	os.RemoveAll(filepath.Join(work, "l1"))
 	c.count(fmt.Sprintf("tree:validates-json=%v,validates-plain=%v", chkU, chkC))
 
 	// ---- filepath.Join itself vs the model's join
@@ -359,13 +376,13 @@ func genNames(c *ctx) {
 	ncases := c.pick(1400, 14000)
 	nseries := c.pick(6, 40)
 	for ci := 0; ci < ncases; ci++ {
-		root := filepath.Join(work, "c"+strconv.Itoa(ci))
+		root := work
 		dest := filepath.Join(root, c09DestRel)
 		os.MkdirAll(dest, 0755)
-		os.MkdirAll(filepath.Join(root, "r/sb/outside"), 0755)
-		os.WriteFile(filepath.Join(root, "r/sb/outside/keep"), []byte("keep"), 0644)
-		os.WriteFile(filepath.Join(root, "r/sb/evil"), []byte("orig-evil"), 0644)
-		os.WriteFile(filepath.Join(root, "r/evil"), []byte("orig-evil-2"), 0644)
+		os.MkdirAll(filepath.Join(root, c09Fill, "r/sb/outside"), 0755)
+		os.WriteFile(filepath.Join(root, c09Fill, "r/sb/outside/keep"), []byte("keep"), 0644)
+		os.WriteFile(filepath.Join(root, c09Fill, "r/sb/evil"), []byte("orig-evil"), 0644)
+		os.WriteFile(filepath.Join(root, c09Fill, "r/evil"), []byte("orig-evil-2"), 0644)
 		kind := 2
 		if ci < nseries {
 			kind = 1
@@ -406,6 +423,7 @@ func genNames(c *ctx) {
 		allOK := true
 		nontrivial := false
 		foreign := false
+		idName := map[string]string{}
 		cur := pre
 		for mi := 0; mi < nm; mi++ {
 			payload := []byte(fmt.Sprintf("P%d-%d", ci, mi))
@@ -449,7 +467,7 @@ func genNames(c *ctx) {
 				local, rep, _, err = v.RecvName(dest, raw, payload)
 				res = "ok:" + hex.EncodeToString([]byte(local))
 				if err == nil && rep != local {
-					c.violate("reported:"+key, "name reported to the peer differs from the name used",
+					c09Violate(c, "reported:"+key, "name reported to the peer differs from the name used",
 						fmt.Sprintf("%s: SUCC carried %q, local name %q", key, rep, local))
 				}
 				if directory {
@@ -488,20 +506,42 @@ func genNames(c *ctx) {
 			cr, to, rm := c09Diff(cur, now)
 			for _, rel := range append(append(append([]string{}, cr...), to...), rm...) {
 				if !strings.HasPrefix(rel, c09DestRel+"/") {
-					c.violate("outside:"+key, "a path outside the destination was created, changed or removed",
+					c09Violate(c, "outside:"+key, "a path outside the destination was created, changed or removed",
 						fmt.Sprintf("%s: %q changed (destination %q)", key, rel, c09DestRel))
 				}
 			}
 			if !overwrite {
 				for _, rel := range append(append([]string{}, to...), rm...) {
 					if _, existed := pre[rel]; existed {
-						c.violate("touched:"+key, "overwrite is off and a pre-existing path was changed",
+						c09Violate(c, "touched:"+key, "overwrite is off and a pre-existing path was changed",
 							fmt.Sprintf("%s: %q existed before the transfer and was modified or removed", key, rel))
 					}
 				}
 			}
 			if err != nil && (chkU || chkC) && len(cr)+len(to)+len(rm) > 0 && c09IsHostileRaw(raw, dec, jsonMode) {
-				c.violate("reject-effect:"+key, "a refused hostile name had an effect", fmt.Sprintf("%s: created %v touched %v", key, cr, to))
+				c09Violate(c, "reject-effect:"+key, "a refused hostile name had an effect", fmt.Sprintf("%s: created %v touched %v", key, cr, to))
+			}
+			// one fresh name per path id: everything an accepted record does lies under the
+			// name first chosen for its path id
+			if !overwrite && jsonMode && err == nil && dec != "x" {
+				id := dec[:strings.IndexByte(dec, ';')]
+				want, known := idName[id]
+				if !known && !entry {
+					idName[id] = local
+					want, known = local, true
+				}
+				if known {
+					if !entry && local != want {
+						c09Violate(c, "split:"+key, "two records with one path id were given different names",
+							fmt.Sprintf("%s: path id %s was stored under %q before, now under %q", key, id, want, local))
+					}
+					for _, rel := range append(append([]string{}, cr...), to...) {
+						if rel != c09DestRel+"/"+want && !strings.HasPrefix(rel, c09DestRel+"/"+want+"/") {
+							c09Violate(c, "split:"+key, "a record was stored outside the name chosen for its path id",
+								fmt.Sprintf("%s: path id %s belongs under %q but %q was created or changed", key, id, want, rel))
+						}
+					}
+				}
 			}
 			if entry && err == nil {
 				// an archive entry whose top-level name is not the archive's own: created, never reported
@@ -535,13 +575,13 @@ func genNames(c *ctx) {
 			key := fmt.Sprintf("ow=%v,dir=%v,v3=%v,msgs=%s", overwrite, directory, v3, strings.Join(margs, ","))
 			for n := range top {
 				if !rep[n] && !foreign {
-					c.violate("unreported:"+key, "a top-level name was created but not reported", fmt.Sprintf("%s: %q", key, n))
+					c09Violate(c, "unreported:"+key, "a top-level name was created but not reported", fmt.Sprintf("%s: %q", key, n))
 				}
 			}
 			if !overwrite {
 				for n := range rep {
 					if !top[n] {
-						c.violate("phantom:"+key, "a name was reported but no such new top-level entry exists", fmt.Sprintf("%s: %q", key, n))
+						c09Violate(c, "phantom:"+key, "a name was reported but no such new top-level entry exists", fmt.Sprintf("%s: %q", key, n))
 					}
 				}
 			}
@@ -555,10 +595,10 @@ func genNames(c *ctx) {
 			key := fmt.Sprintf("delete,ow=%v,dir=%v,v3=%v,msgs=%s", overwrite, directory, v3, strings.Join(margs, ","))
 			for _, rel := range append(append([]string{}, to...), rm...) {
 				if !strings.HasPrefix(rel, c09DestRel+"/") {
-					c.violate("outside:"+key, "deleteCreatedFiles removed or changed a path outside the destination", fmt.Sprintf("%s: %q", key, rel))
+					c09Violate(c, "outside:"+key, "deleteCreatedFiles removed or changed a path outside the destination", fmt.Sprintf("%s: %q", key, rel))
 				}
 				if _, existed := pre[rel]; existed && !overwrite {
-					c.violate("touched:"+key, "overwrite is off and deleteCreatedFiles removed a pre-existing path", fmt.Sprintf("%s: %q", key, rel))
+					c09Violate(c, "touched:"+key, "overwrite is off and deleteCreatedFiles removed a pre-existing path", fmt.Sprintf("%s: %q", key, rel))
 				}
 			}
 			if len(deleted) > 0 {
@@ -612,13 +652,13 @@ func genNames(c *ctx) {
 			}
 		}
 		c.emit(nontrivial, "names_run", obs, flags, c09HexPath(c09DestRel), prearg, strings.Join(margs, ","))
-		os.RemoveAll(root)
+		os.RemoveAll(filepath.Join(root, "l1"))
 	}
 
 	// ---- getNewName alone on series with gaps and long names
 	ng := c.pick(150, 1500)
 	for i := 0; i < ng; i++ {
-		root := filepath.Join(work, "g"+strconv.Itoa(i))
+		root := work
 		dest := filepath.Join(root, c09DestRel)
 		os.MkdirAll(dest, 0755)
 		base := []string{"a", c09Long(252, 'q'), c09Long(253, 'q'), c09Long(254, 'q'), c09Long(255, 'q'), c09Long(256, 'q'), "x.0", "é"}[c.rng.Intn(8)]
@@ -647,7 +687,7 @@ func genNames(c *ctx) {
 			res = "err"
 		}
 		c.emit(got != name, "names_new", res, c09HexPath(c09DestRel), pre.listing(), hx([]byte(name)))
-		os.RemoveAll(root)
+		os.RemoveAll(filepath.Join(root, "l1"))
 	}
 }
 
@@ -686,8 +726,10 @@ func c09ContainsStr(l []string, x string) bool {
 func init() { groups["names07"] = genNames07 }
 
 func genNames07(c *ctx) {
-	cwd, _ := os.Getwd()
-	root := filepath.Join(cwd, "names07_sb")
+	root, err := os.MkdirTemp("", "c09names07")
+	if err != nil {
+		panic(err)
+	}
 	dest := filepath.Join(root, c09DestRel)
 	os.MkdirAll(dest, 0755)
 	defer os.RemoveAll(root)
@@ -709,7 +751,7 @@ func genNames07(c *ctx) {
 		ents, _ := os.ReadDir(dest)
 		for _, e := range ents {
 			if e.Name() != rep {
-				c.violate("archive-entry-foreign-top-level",
+				c09Violate(c, "archive-entry-foreign-top-level",
 					"a top-level name was created by an archive entry but is not among the names reported to the user",
 					fmt.Sprintf("overwrite=%v NAME %s (reported %q) then archive entry header %s: %q created in the destination", overwrite, name, rep, entry, e.Name()))
 			}
@@ -724,4 +766,24 @@ func genNames07(c *ctx) {
 		}
 		c.emit(true, "names_new", res, c09HexPath(c09DestRel), snap.listing(), hx([]byte("other")))
 	}
+}
+
+// at most three reported inputs per oracle (the kind is the key's prefix up to ':')
+var c09ViolCount = map[string]int{}
+
+// hex of the private root, removed from keys so that they do not depend on the temp name
+var c09WorkHex = "\x00"
+
+func c09Violate(c *ctx, key, what, detail string) {
+	key = strings.ReplaceAll(key, c09WorkHex, "524f4f54")
+	kind := key
+	if i := strings.IndexByte(key, ':'); i >= 0 {
+		kind = key[:i]
+	}
+	if c09ViolCount[kind] >= 3 {
+		c.count("violations-suppressed:" + kind)
+		return
+	}
+	c09ViolCount[kind]++
+	c.violate(key, what, detail)
 }
